@@ -27,7 +27,7 @@ Fixpoint parse_all (fuel : nat) (p : parser) (se : scan_end) (acc : list (event 
   end.
 
 Definition run_str (s : list N) : list (event * span) * pend :=
-  let F := (length s + 10)%nat in
+  let F := (2 * length s + 10)%nat in
   let '(toks, se) := scan_all str_ops F (4 * F + 20) (init_sc {| si_chars := s; si_look := 0 |}) [] in
   let p := {| p_toks := toks; p_token := None; p_states := []; p_state := SStreamStart;
               p_anchors := []; p_anchor_id := 1%N; p_tags := []; p_keep_tags := false |} in
